@@ -24,12 +24,47 @@ def paths(repo: Repo, fn: FunctionInfo, bind: Optional[Dict[str, Term]] = None,
     key = (id(repo), fn.qualname + ('#s' if fn.kind == 'setter' else ''),
            tuple(sorted((bind or {}).items())) + (loop_unroll, keep_t))
     if key not in _path_cache:
-        inline = None
         if keep_t is not None:
             def inline(fi, _k=set(keep_t)):
                 return fi.name not in _k and not fi.name.startswith('__')
+        else:
+            # default: look through helpers that did not exist when the rules were written
+            # (sa/baseline_functions.txt lists the functions of the tree the rule instances
+            # were confirmed on).  A helper a maintainer extracts, or a shared implementation
+            # siblings are moved to, is analysed in place; the list decides only what is looked
+            # through, never what is reported.
+            base = _baseline()
+            owners: Dict[str, List[str]] = {}
+            for q in base:
+                o, _, nm = q.rpartition('.')
+                owners.setdefault(nm, []).append(o)
+
+            def inline(fi, _b=base, _o=owners):
+                if fi.qualname in _b or fi.name.startswith('__'):
+                    return False
+                if fi.cls is not None:
+                    # a method moved up or down its class hierarchy is the same helper
+                    for o in _o.get(fi.name, ()):
+                        oc = repo.classes.get(o)
+                        if oc is not None and (repo.is_subclass(oc, fi.cls.qualname) or
+                                               repo.is_subclass(fi.cls, oc.qualname)):
+                            return False
+                return True
         _path_cache[key] = Evaluator(repo, fn, bind, loop_unroll=loop_unroll, inline=inline).run()
     return _path_cache[key]
+
+
+_BASELINE: Optional[Set[str]] = None
+
+
+def _baseline() -> Set[str]:
+    global _BASELINE
+    if _BASELINE is None:
+        import os
+        f = os.path.join(os.path.dirname(os.path.abspath(__file__)), 'baseline_functions.txt')
+        with open(f) as fh:
+            _BASELINE = {ln.strip() for ln in fh if ln.strip()}
+    return _BASELINE
 
 
 def returning(ps: Iterable[State]) -> List[State]:
@@ -280,15 +315,25 @@ def guards_of(p: State, ev: Event) -> List[Tuple[Term, bool]]:
     this path (the conditions that *decide* whether the construct is reached), innermost
     last.  Assumptions made by unrelated earlier tests are not included."""
     out: List[Tuple[Term, bool]] = []
-    ln = getattr(ev.node, 'lineno', None)
-    if ln is None:
+    if getattr(ev.node, 'lineno', None) is None:
         return out
+
+    def frame(e):
+        return tuple(c[1] for c in e.ctx if c and c[0] == 'inlined')
+    fe = frame(ev)
     idx = p.events.index(ev) if ev in p.events else len(p.events)
     for e in p.events[:idx]:
         if e.kind != 'assume' or not isinstance(e.node, (ast.If, ast.While)):
             continue
+        fa = frame(e)
+        if fa != fe[:len(fa)]:
+            continue
+        # the construct as seen from the test's frame: itself, or the call through which the
+        # helper containing it was entered
+        target = ev.node if len(fa) == len(fe) else fe[len(fa)]
+        ln = getattr(target, 'lineno', None)
         n = e.node
-        if n.lineno <= ln <= (n.end_lineno or n.lineno):
+        if ln is not None and n.lineno <= ln <= (n.end_lineno or n.lineno):
             out.append((e.data[0], e.data[1]))
     return out
 
